@@ -63,7 +63,8 @@ Definition opt_pyc_beq (a b : option pyc) : bool :=
   match a, b with Some x, Some y => pyc_beq x y | None, None => true | _, _ => false end.
 
 (* ------------------------------------------------------------------ operands and outcomes *)
-Inductive kind := Obj (c : cls) | KFloat | KInt | KArr (s : list nat).
+(* KSeq tup m: a plain Python list (tup = false) or tuple (tup = true) of m numbers -- an array-LIKE vector operand *)
+Inductive kind := Obj (c : cls) | KFloat | KInt | KArr (s : list nat) | KSeq (tup : bool) (m : nat).
 Definition is_scalar (k : kind) : bool := match k with KFloat | KInt => true | _ => false end.
 
 Inductive rkind := RObj (c : cls) | RArray | RArrayList | RBool | RBoolList | RBoolArray | RScalar | RObjArray.
@@ -126,6 +127,7 @@ Definition op2 (lc : cls) (r : kind) (f : npop) : raw :=
               else RawRaise
   | KFloat | KInt => if n =? 1 then RawSingle else RawList
   | KArr s => if shape_beq s (eshape H lc) then (if n =? 1 then RawSingle else RawList) else RawRaise
+  | KSeq _ _ => RawRaise                          (* neither a scalar nor an ndarray *)
   end.
 (* X(raw, check=False) for a pose class *)
 Definition pose_ctor (c : cls) (x : raw) : outcome :=
@@ -149,6 +151,7 @@ Definition SMPose_mul (lc : cls) (r : kind) : mres :=
       else if (isSO H lc || isSE H lc) && (hd0 s =? N) && (2 <=? length s) && (n =? nth 1 s 0)
            then Out (Value RArray Computed)                                         (* M poses, N x M array: column i by pose i *)
       else Out Raise                                                                (* ValueError('bad operands') *)
+  | KSeq _ m => if m =? poseN H lc then Out (Value RArray Computed) else Out Raise   (* isvector(list, N); the matrix branches need an ndarray *)
   | KFloat | KInt => Out (raw_out (op2 lc r OElem))
   end.
 (* SMPose.__truediv__ *)
@@ -156,7 +159,7 @@ Definition SMPose_div (lc : cls) (r : kind) : mres :=
   match r with
   | Obj rc => if cls_beq lc rc then Out (pose_ctor lc (op2 lc r OMatMul)) else Out Raise
   | KFloat | KInt => Out (raw_out (op2 lc r OElem))
-  | KArr _ => Out Raise
+  | KArr _ | KSeq _ _ => Out Raise
   end.
 (* SMPose.__add__/__sub__, :1156/:1239: the helper's result is returned as it is *)
 Definition SMPose_addsub (lc : cls) (r : kind) : mres := Out (raw_out (op2 lc r OElem)).
@@ -183,20 +186,20 @@ Definition SMPose_ne (lc : cls) (r : kind) : mres :=
 
 (* SMUserList.binop, smuserlist.py:522-552, for operands of equal length n: needs len(right) unless right is a scalar *)
 Definition binop_ok (r : kind) : bool :=
-  match r with Obj rc => is_seq rc | KFloat | KInt => true | KArr _ => false end.
+  match r with Obj rc => is_seq rc | KFloat | KInt => true | KArr _ | KSeq _ _ => false end.
 
 (* Quaternion.__mul__, quaternion.py:556-566 *)
 Definition Quaternion_mul (lc : cls) (r : kind) : mres :=
   match r with
   | Obj rc => if isinst rc (C lc) then Out (Value (RObj Quaternion) Computed) else Out Raise
   | KFloat | KInt => Out (Value (RObj Quaternion) Computed)
-  | KArr _ => Out Raise
+  | KArr _ | KSeq _ _ => Out Raise
   end.
-(* Quaternion.__rmul__, :589:  Quaternion([left * q._A for q in right]) -- no test of [left] at all *)
+(* Quaternion.__rmul__ (after fix 1dd7b75):  if not isscalar(left): raise ValueError;  Quaternion([left * q._A for q in right]) *)
 Definition Quaternion_rmul (sc : cls) (l : kind) : mres :=
   match l with
   | KFloat | KInt => Out (Value (RObj Quaternion) Computed)
-  | _ => match rec Mul l (KArr [4]) with Raise => Out Raise | _ => Out Unmodelled end
+  | _ => Out Raise
   end.
 (* Quaternion.__add__/__sub__, :727/:788:  assert isinstance(left, type(right)) *)
 Definition Quaternion_addsub (lc : cls) (r : kind) : mres :=
@@ -224,6 +227,7 @@ Definition UnitQuaternion_mul (lc : cls) (r : kind) : mres :=
               else if (n =? 1) && (hd0 s =? 3) && (2 <=? length s) then Out (Value RArray Computed)
               else if (length s =? 2) && (hd0 s =? 3) && (n =? nth 1 s 0) then Out (Value RArray Computed)   (* fix e6aec7a: N quaternions, 3 x N points *)
               else Out Raise
+  | KSeq _ m => if m =? 3 then Out (Value RArray Computed) else Out Raise
   end.
 (* UnitQuaternion.__truediv__, :1666-1671.  UnitQuaternion(list) validates: for a right operand that is a plain
    (non-unit) Quaternion the quotient is not unit and the constructor raises (operand values are generic). *)
@@ -231,7 +235,7 @@ Definition UnitQuaternion_div (lc : cls) (r : kind) : mres :=
   match r with
   | Obj rc => if isinst lc (C rc) then (if cls_beq lc rc then Out (Value (RObj UnitQuaternion) Computed) else Out Raise) else Out Raise
   | KFloat | KInt => Out (Value (RObj Quaternion) Computed)
-  | KArr _ => Out Raise
+  | KArr _ | KSeq _ _ => Out Raise
   end.
 (* UnitQuaternion.__eq__/__ne__, :1698/:1725: no type test; base.isequal needs 4-vectors *)
 Definition UnitQuaternion_cmp (lc : cls) (r : kind) : mres :=
@@ -247,7 +251,7 @@ Definition Twist_mul (tw se : cls) (r : kind) : mres :=
               else if isinst rc (C se) then Out (Value (RObj se) Computed)
               else Out Raise
   | KFloat | KInt => Out (Value (RObj tw) Computed)
-  | KArr _ => Out Raise
+  | KArr _ | KSeq _ _ => Out Raise
   end.
 (* Twist3.__rmul__ / Twist2.__rmul__ (after fixes 11978d3, d78118f):
    if isscalar(left): return TwistN([x * left for x in right.data])  else raise -- every element is scaled, whatever the length *)
@@ -342,6 +346,7 @@ Definition DualQuaternion_mul (lc : cls) (r : kind) : mres :=
         else Out Raise
       else Out Raise
   | KArr s => if isinst lc (C UnitDualQuaternion) && isvector s 3 then Out (Value RArray Computed) else Out Raise
+  | KSeq _ m => if isinst lc (C UnitDualQuaternion) && (m =? 3) then Out (Value RArray Computed) else Out Raise
   | KFloat | KInt => Out Raise
   end.
 
@@ -360,6 +365,9 @@ Definition UserList_eq (lc : cls) (r : kind) : mres :=
               else Out (Value RBool Computed)          (* list == object: False *)
   | KFloat | KInt => Out (Value RBool Computed)
   | KArr s => if bcast (n :: eshape H lc) s then Out (Value RBoolArray Computed) else Out Raise
+  | KSeq false m => if m =? n then Out Raise              (* list == list of equal length: bool(array == number) is ambiguous *)
+                    else Out (Value RBool Computed)        (* lengths differ: False without looking at the elements *)
+  | KSeq true _ => Out (Value RBool Computed)              (* list == tuple: False *)
   end.
 (* SMUserList.__eq__ / __ne__ (after fix fb8fbdb): two objects of the same class are compared element by element through
    binop(list1=False); anything else goes to super(): UserList.__eq__, and object.__ne__ (which inverts type(self).__eq__) *)
@@ -474,12 +482,16 @@ Definition arith (o : op) (l r : kind) : outcome :=
            | Out x => x
            | NotImpl => if same then type_error else or_else rv type_error
            end
-  | Obj cl, KFloat | Obj cl, KInt =>
-      or_else (call (owner cl (Fwd o)) (Fwd o) cl r) type_error          (* float/int.__rop__(obj) is NotImplemented *)
+  | Obj cl, KFloat | Obj cl, KInt | Obj cl, KSeq _ _ =>
+      or_else (call (owner cl (Fwd o)) (Fwd o) cl r) type_error          (* float/int.__rop__(obj) is NotImplemented; list and tuple have
+                                                                             no reflected numeric methods, and their sequence repeat / concat
+                                                                             need an int / a list: TypeError *)
   | Obj cl, KArr _ =>
       match call (owner cl (Fwd o)) (Fwd o) cl r with Out x => x | NotImpl => numpy_arith o cl false end
-  | KFloat, Obj cr | KInt, Obj cr =>
-      or_else (call (owner cr (Rev o)) (Rev o) cr l) type_error          (* float/int.__op__(obj) is NotImplemented *)
+  | KFloat, Obj cr | KInt, Obj cr | KSeq _ _, Obj cr =>
+      or_else (call (owner cr (Rev o)) (Rev o) cr l) type_error          (* float/int.__op__(obj) is NotImplemented; list / tuple have no
+                                                                             nb_ slots: the object's reflected method is asked, then sq_repeat
+                                                                             / sq_concat fail with TypeError *)
   | KArr _, Obj cr => numpy_arith o cr true
   | _, _ => Unmodelled
   end.
@@ -494,9 +506,9 @@ Definition richcmp (o : op) (l r : kind) : outcome :=
       if negb (cls_beq cl cr) && isinst cr (C cl)
       then match rv with Out x => x | NotImpl => or_else fwd dflt end
       else match fwd with Out x => x | NotImpl => or_else rv dflt end
-  | Obj cl, KFloat | Obj cl, KInt => or_else (call (owner cl (Fwd o)) (Fwd o) cl r) dflt
+  | Obj cl, KFloat | Obj cl, KInt | Obj cl, KSeq _ _ => or_else (call (owner cl (Fwd o)) (Fwd o) cl r) dflt
   | Obj cl, KArr _ => match call (owner cl (Fwd o)) (Fwd o) cl r with Out x => x | NotImpl => numpy_cmp cl end
-  | KFloat, Obj cr | KInt, Obj cr => or_else (call (owner cr (Fwd o)) (Fwd o) cr l) dflt
+  | KFloat, Obj cr | KInt, Obj cr | KSeq _ _, Obj cr => or_else (call (owner cr (Fwd o)) (Fwd o) cr l) dflt   (* list.__eq__(obj) is NotImplemented *)
   | KArr _, Obj cr => numpy_cmp cr
   | _, _ => Unmodelled
   end.
@@ -545,6 +557,10 @@ Definition documented (n : nat) (o : op) (l r : kind) : spec :=
       else if cls_beq a UnitQuaternion && (isvector s 3 || ((hd0 s =? 3) && (length s =? 2))) then May RArray
       else if cls_beq a UnitDualQuaternion && isvector s 3 then May RArray
       else MustRaise
+  | Mul, Obj a, KSeq _ m =>   (* pose * vector, UnitQuaternion * 3-vector: "the vector is an array-like, a 1D NumPy array or a list/tuple" *)
+      if is_pose a && (m =? poseN H a) then May RArray
+      else if (cls_beq a UnitQuaternion || cls_beq a UnitDualQuaternion) && (m =? 3) then May RArray
+      else MustRaise
   | Mul, Obj a, _ =>       (* scalar on the right *)
       if is_pose a then Must (arr n)
       else if is_quat a then May (RObj Quaternion)
@@ -574,7 +590,8 @@ Definition documented (n : nat) (o : op) (l r : kind) : spec :=
   | Add, Obj a, KArr s | Sub, Obj a, KArr s =>
       if is_pose a && shape_beq s (eshape H a) then May (arr n) else MustRaise      (* conforming array (helper _op2) *)
   | Add, Obj a, _ | Sub, Obj a, _ =>
-      if is_pose a then May (arr n) else if is_quat a then May (RObj Quaternion) else MustRaise
+      if negb (is_scalar r) then MustRaise
+      else if is_pose a then May (arr n) else if is_quat a then May (RObj Quaternion) else MustRaise
   | Add, _, Obj b | Sub, _, Obj b =>
       if is_scalar l && is_pose b then May (arr n) else MustRaise
   | Pow, Obj a, KInt => if is_pose a || is_quat a then May (RObj a) else MustRaise
@@ -617,6 +634,11 @@ Definition all_cells : list cell := cells_for lengths all_kinds.
 Definition ext_kinds : list kind :=
   all_kinds ++ [KArr [2]; KArr [2; 2]; KArr [6]; KArr [6; 6]; KArr [3; 5]; KArr [4]; KArr [2; 3]; KArr [3; 1]; KArr [1; 3]].
 Definition ext_cells : list cell := cells_for [1; 2; 3; 4] ext_kinds.
+(* array-LIKE vector operands: a list or a tuple of 2, 3 or 4 numbers, on either side of every class, every operator *)
+Definition seq_kinds : list kind := [KSeq false 2; KSeq false 3; KSeq false 4; KSeq true 2; KSeq true 3; KSeq true 4].
+Definition is_seq_kind (k : kind) : bool := match k with KSeq _ _ => true | _ => false end.
+Definition seq_cells : list cell :=
+  filter (fun c => is_seq_kind (c_l c) || is_seq_kind (c_r c)) (cells_for lengths (map Obj all_cls ++ seq_kinds)).
 
 Definition model (c : cell) : outcome := binop (c_n c) (c_op c) (c_l c) (c_r c).
 Definition spec_of (c : cell) : spec := documented (c_n c) (c_op c) (c_l c) (c_r c).
@@ -656,7 +678,7 @@ Lemma SMPose_addsub_never_none :
   forall (H : hier) (n : nat) (l : cls) (r : kind), SMPose_addsub H n l r <> Out ReturnsNone.
 Proof.
   intros H n l r. unfold SMPose_addsub, op2.
-  destruct r as [rc | | | s]; repeat match goal with |- context [if ?b then _ else _] => destruct b end; simpl; discriminate.
+  destruct r as [rc | | | s | tup m]; repeat match goal with |- context [if ?b then _ else _] => destruct b end; simpl; discriminate.
 Qed.
 
 (* protocol: with a number on the left the outcome is whatever the reflected method of the right class says, TypeError if it
